@@ -1395,12 +1395,13 @@ class Process(StateMachine, persistence.Savable, metaclass=ProcessStateMachineMe
         validation_error = None
         try:
             port = port_namespace[port_name]
-            dynamic = False
-            validation_error = port.validate(value)
         except KeyError:
             port = port_namespace
             dynamic = True
             validation_error = port.validate_dynamic_ports({port_name: value})
+        else:
+            dynamic = False
+            validation_error = port.validate(value)
 
         if validation_error:
             msg = f"Error validating output '{value}' for port '{validation_error.port}': {validation_error.message}"
